@@ -354,6 +354,14 @@ def translate_heap():
     facts["frame_handlers_rooted"] = lf_ok and plain == 0 and through >= 4 and threads >= 1
     # is the root queue emptied once marking is over (sync build: explicit clear after MARKER.mark)?
     sync_mark = re.search(r"let count = MARKER\.mark\(context\.queue\);(.*?)#\[cfg\(not\(feature = \"sync\"\)\)\]", markb_nc, re.S)
+    # a host root disappears from the root table when its token is dropped - unconditionally (a try_lock that gives up
+    # leaves the entry behind for ever: everything it reaches is never reclaimed; seeded change C19-2)
+    dr = re.search(r"impl Drop for RootToken \{(.*?)\n\}", closed, re.S)
+    if not dr:
+        raise TieBroken("impl Drop for RootToken not found in closed.rs")
+    drb = strip_rust_comments(dr.group(1))
+    facts["root_token_drop_frees"] = bool(re.search(r"GLOBAL_ROOTS\s*\.lock\(\)\s*\.unwrap\(\)\s*\.free\(self\)", drb)) and "try_lock" not in drb \
+        and bool(re.search(r"ROOTS\.with\(\|x\| x\.borrow_mut\(\)\.free\(self\)\)", drb))
     facts["mark_queue_cleared"] = bool(sync_mark and re.search(r"context\.queue\.clear\(\)|self\.mark_and_sweep_queue\.clear\(\)", sync_mark.group(1)))
     # does the global-slot recycler put the mark bits back?
     recb, _ = fn_body(closed, r"pub fn recycle\(&mut self, roots: &mut \[SteelVal\], symbol_map: &mut SymbolMap, heap: &mut Heap\)", what="GlobalSlotRecycler::recycle")
@@ -403,6 +411,8 @@ def render_gen(f):
     out.append("Definition frame_handlers_rooted : bool := %s." % coq_bool(f["frame_handlers_rooted"]))
     out.append("(* Heap::mark empties the root queue after marking (sync build) *)")
     out.append("Definition mark_queue_cleared : bool := %s." % coq_bool(f["mark_queue_cleared"]))
+    out.append("(* dropping a host root token removes its entry from the root table under a blocking lock *)")
+    out.append("Definition root_token_drop_frees : bool := %s." % coq_bool(f["root_token_drop_frees"]))
     out.append("(* work queue of the parallel marker (MarkAndSweepContextRefQueue::push_back / pop_front, ParallelMarker::mark / new):")
     out.append("   capacity of a worker's local queue; the local-queue-full path of push_back enqueues the pushed value (on the shared")
     out.append("   queue); the other path enqueues it (on the local queue); the drain loop pops both queues until both are empty;")
